@@ -97,6 +97,19 @@ def run(ctx: Ctx):
     ctx.model_check("BringupMC", "MC_Bringup", constants={"Versions": "{" + ", ".join(map(str, VERSIONS)) + "}"},
                     invariants=("ContractHolds", "AdoptsReported", "FallbackAfterReset"),
                     required_actions=("Connect", "Reset", "Version1", "Version2", "Command"), workers=4)
+    # bring-up of the composed host stack (Stack.tla) against the conforming NCP on a fault-free line: no timeout, no frame number used twice
+    from . import stackx, tlc as T
+    bc = stackx.mc_consts(MaxFaults="0", MaxCb="0", NCalls="2")
+    bc.pop("NoCur", None)
+    ctx.model_check("StackBootMC", "MC_StackBoot", spec="BSpec", constants=dict(bc, Boot="FALSE"),
+                    invariants=("NoTimeoutOnQuietLine", "FramesNumberedOnce", "OwnResponse"), constraints=("LineBound",),
+                    required_actions=("BReset", "BVersion", "BCall", "BToHost", "BToNcp", "BNcpReset"))
+    # the same model with an NCP that announces its own start-up reset while the host's RST is unread reproduces the known finding
+    cfg = T.write_cfg(ctx.workdir / "MC_StackBoot_known.cfg", spec="BSpec", constants=dict(bc, Boot="TRUE"),
+                      invariants=("FramesNumberedOnce",), constraints=("LineBound",))
+    kr = T.run_tlc("StackBootMC", cfg, workdir=ctx.workdir, workers=4)
+    ctx.notes["known_finding_in_model"] = ("reproduced by StackBootMC with Boot = TRUE: " + (",".join(kr.violated) or kr.error_kind or "no violation")
+                                           + f" ({kr.distinct} states)")
     rng = ctx.rng
     scheds = fault_schedules(ctx.quick, rng)
     cases = []
